@@ -16,6 +16,7 @@ import (
 	"sort"
 	"strings"
 	"sync"
+	"syscall"
 	"time"
 
 	"github.com/spf13/afero"
@@ -45,6 +46,11 @@ var importOnce sync.Once
 
 func importAll() {
 	importOnce.Do(func() {
+		var lim syscall.Rlimit
+		if syscall.Getrlimit(syscall.RLIMIT_NOFILE, &lim) == nil && lim.Cur < lim.Max {
+			lim.Cur = lim.Max
+			_ = syscall.Setrlimit(syscall.RLIMIT_NOFILE, &lim)
+		}
 		fs := afero.NewOsFs()
 		coreimport.Import(fs)
 		phttpimport.Import(fs)
@@ -447,6 +453,7 @@ func runCase(c map[string]interface{}, tgt *scentarget.Target, root string, hcl 
 	obs.RunErr = runEngine(conf, agg, 60*time.Second)
 	obs.Log = tgt.Log()
 	obs.Samples = agg.Samples()
+	tgt.DropConns()
 	ring, err := ringOf(payload, 30)
 	if err != nil {
 		obs.BuildErr = "ring: " + err.Error()
